@@ -541,10 +541,12 @@ def _op_sign(ctx, C, reps, st, hist_r, cfg):
             # only a libsecp256k1-backed generator may normalise s
             ctx.violate("C01", "not-rfc6979", {"replica": rid, "got": [r, s], "expected": [mr, ms], "why": "s flipped"})
         if C.p.bit_length() > 200:
+            # RFC 6979 itself reduces the hash mod n (bits2octets), so z and z+n are the same message to ECDSA
+            # and get the same nonce and the same signature: "distinct (key, hash)" means distinct mod n
             prev = hist_r.get(r)
-            if prev is not None and prev != (d, z):
-                ctx.violate("C01", "nonce-shared", {"r": r, "a": prev, "b": [d, z]})
-            hist_r[r] = (d, z)
+            if prev is not None and prev != (d, z % n):
+                ctx.violate("C01", "nonce-shared", {"r": r, "a": prev, "b": [d, z % n]})
+            hist_r[r] = (d, z % n)
 
 
 def _op_verify(ctx, C, reps, st, hist_r, cfg):
